@@ -65,7 +65,7 @@ def _src_hash(fn_specs):
 def _worker(args):
     pid, tier, seed, idx, part = args
     sys.setrecursionlimit(10000)
-    from symx.core import Explorer
+    from symx.core import HarnessLimit, Explorer
 
     t0 = time.time()
     res = {"idx": idx, "name": "?", "stats": None, "cex": [], "known_hits": [], "incomplete": None, "notes": {}, "error": None, "witness_ok": 0, "witness_bad": []}
@@ -115,6 +115,9 @@ def _worker(args):
                 try:
                     with redirect_stdout(buf):
                         ok, info = case.replay(_Cex(c.label, vals, c.detail, c.path, c.kind))
+                except HarnessLimit as e:
+                    ok, info = False, f"harness limitation in the replay: {e}"
+                    break
                 except Exception as e:
                     ok, info = False, f"replay raised {type(e).__name__}: {e}\n{traceback.format_exc()[-600:]}"
                     # the symbolic run saw the real code raise this very exception type: the replay raising it again reproduces it
@@ -137,6 +140,9 @@ def _worker(args):
             try:
                 with redirect_stdout(buf):
                     ok, info = case.replay(_Cex2("witness", w, "witness of a discharged path"))
+            except HarnessLimit as e:
+                ok, info = False, f"harness limitation in the replay: {e}"  # no verdict either way
+                res["incomplete"] = res.get("incomplete") or f"witness replay: {e}"
             except Exception as e:
                 ok, info = True, f"replay raised {type(e).__name__}: {e}\n{traceback.format_exc()[-500:]}"
             if ok:
